@@ -343,6 +343,48 @@ async fn check_pem(rep: &mut Report, r: &mut Rng, dir: &PathBuf, i: u64) {
     variants.push((r.bytes(300), "garbage"));
     variants.push((b"-----BEGIN CERTIFICATE-----\nAAAA\n-----END CERTIFICATE-----\n".to_vec(), "tiny-der"));
     variants.push((vec![], "empty"));
+    // a chain file whose k-th CERTIFICATE section holds DER that is not a certificate
+    let pem_of = |der: &[u8]| {
+        const T: &[u8; 64] = b"ABCDEFGHIJKLMNOPQRSTUVWXYZabcdefghijklmnopqrstuvwxyz0123456789+/";
+        let mut b64 = String::new();
+        for ch in der.chunks(3) {
+            let v = (ch[0] as u32) << 16 | (*ch.get(1).unwrap_or(&0) as u32) << 8 | *ch.get(2).unwrap_or(&0) as u32;
+            b64.push(T[(v >> 18) as usize & 63] as char);
+            b64.push(T[(v >> 12) as usize & 63] as char);
+            b64.push(if ch.len() > 1 { T[(v >> 6) as usize & 63] as char } else { '=' });
+            b64.push(if ch.len() > 2 { T[v as usize & 63] as char } else { '=' });
+        }
+        let mut out = String::from("-----BEGIN CERTIFICATE-----\n");
+        for line in b64.as_bytes().chunks(64) {
+            out.push_str(std::str::from_utf8(line).unwrap());
+            out.push('\n');
+        }
+        out.push_str("-----END CERTIFICATE-----\n");
+        out.into_bytes()
+    };
+    for k in 0..3usize {
+        for (bad, how) in [
+            ({ let n = r.usize(1, 400); r.bytes(n) }, "garbage-der"),
+            (cert.der()[..cert.der().len() / 2].to_vec(), "truncated-der"),
+            ({ let mut d = cert.der().to_vec(); d.extend_from_slice(b"trailing"); d }, "der-with-trailing-bytes"),
+            (key.secret_der().to_vec(), "key-der-as-certificate"),
+        ] {
+            let mut file = vec![];
+            for j in 0..3 {
+                file.extend(if j == k { pem_of(&bad) } else { cert_pem.clone() });
+            }
+            variants.push((file, match (k, how) {
+                (0, "garbage-der") => "chain-bad0-garbage-der",
+                (0, "truncated-der") => "chain-bad0-truncated-der",
+                (0, "der-with-trailing-bytes") => "chain-bad0-trailing",
+                (0, _) => "chain-bad0-key-der",
+                (_, "garbage-der") => "chain-badK-garbage-der",
+                (_, "truncated-der") => "chain-badK-truncated-der",
+                (_, "der-with-trailing-bytes") => "chain-badK-trailing",
+                _ => "chain-badK-key-der",
+            }));
+        }
+    }
     for (bytes, class) in variants {
         rep.eval(format!("pem-corrupt|{class}"));
         if std::fs::write(&p_bad, &bytes).is_err() {
@@ -359,7 +401,20 @@ async fn check_pem(rep: &mut Report, r: &mut Rng, dir: &PathBuf, i: u64) {
         });
         match h.await {
             Err(_) => rep.violation(format!("C19|pem|panic|{class}"), format!("loading a {class} file panics"), J::obj([("class", J::s(class)), ("bytes_hex_head", J::s(crate::util::hex_head(&bytes, 48))), ("len", J::u(bytes.len() as u64))])),
-            Ok((a, _b, c, _d)) => {
+            Ok((a, b, c, _d)) => {
+                // whatever a loader accepts must be a certificate for an independent parser
+                for (which, ders) in [("Certificate::load_pemfile", a.clone().map(|d| vec![d]).unwrap_or_default()), ("CertificateChain::load_pemfile", b.clone().unwrap_or_default())] {
+                    for (idx, der) in ders.iter().enumerate() {
+                        let whole = matches!(x509_parser::parse_x509_certificate(der), Ok((rest, _)) if rest.is_empty());
+                        if !whole {
+                            rep.violation(
+                                format!("C19|pem|malformed-der-accepted|{}", if class.starts_with("chain-bad") { &class[..10] } else { class }),
+                                format!("{which} on a {class} file returned Ok although entry {idx} ({} bytes) is not a DER certificate", der.len()),
+                                J::obj([("class", J::s(class)), ("entry", J::u(idx as u64)), ("der_hex_head", J::s(crate::util::hex_head(der, 32)))]),
+                            );
+                        }
+                    }
+                }
                 if class == "truncated-cert" {
                     if let Ok(der) = a {
                         if der != cert.der() {
